@@ -458,9 +458,6 @@ fn dns_via_dispatch() {
         None => { assert!(false, "C19/C14: DNS query not answered for some port pair / address"); return; }
     };
     assert!(v.len() == 12 && v[0] == id[0] && v[1] == id[1] && v[2] & 0x80 != 0 && v[2] & 1 == 1, "C14: malformed DNS answer through the dispatcher");
-    let mut c2 = ci_any(true, false);
-    let r2 = repl(&d, &masscanned, &mut c2, None);
-    assert!(r2.is_some() && r2.unwrap().len() == 12, "C19: DNS answer depends on the IP version");
     kani::cover!(c1.port.src == Some(7), "answered from source port 7");
     kani::cover!(true, "dns answered through the dispatcher");
 }
@@ -468,8 +465,9 @@ fn dns_via_dispatch() {
 //# harness: c19_dns_via_dispatch
 //# props: C19 C14 C10@thorough
 //# tier: quick
+//# timeout: 900
 //# encodes: proto::repl (datagram mode: matcher, end-of-input step, DNS fallback), proto::dns::DNSPacket::{try_from,repl}
-//# bounds: 12-byte DNS query with QDCOUNT = 0 and symbolic ID (first byte outside the signature start bytes); source/destination ports and addresses (IPv4 and IPv6) fully symbolic
+//# bounds: 12-byte DNS query with QDCOUNT = 0 and symbolic ID (first byte outside the signature start bytes); source/destination ports and IPv4 addresses fully symbolic
 //# stubs: proto_init -> real tables
 //# cover: answered from source port 7
 //# cover: dns answered through the dispatcher
